@@ -318,6 +318,24 @@ def run(ctx):
     _memo(ctx, "R15.4", [p.get_class("wavespectra.spectrum.FrequencySpectrum"), p.get_class("wavespectra.spectrum.FrequencyDirectionSpectrum")], "spectrum classes")
     _memo_pos(ctx, "R15.4")
     ctx.require_count("R15.4", 2)
+    # ---- R15.5 the dataset interpolators hand back a new dataset on every path.  WaveSpectrum.interpolate / interpolate_frequency
+    # wrap what they return and fill missing values *in place* on the wrapper: a path that returns the operand's own dataset (a
+    # "nothing to do" shortcut) makes that in-place step, and every later in-place operation on the result, change the operand
+    dsm = p.modules.get("interpolate.dataset")
+    n55 = 0
+    for f in ([f for f in p.all_functions if f.module is dsm and f.cls is None and f.parent is None] if dsm is not None else []):
+        rebound = {t.id for n in own_walk(f.node) if isinstance(n, (ast.Assign, ast.AugAssign, ast.AnnAssign))
+                   for t in (n.targets if isinstance(n, ast.Assign) else [n.target]) if isinstance(t, ast.Name)}
+        rets = [n for n in own_walk(f.node) if isinstance(n, ast.Return) and n.value is not None]
+        if not rets or not f.params:
+            continue
+        n55 += 1
+        handed_back = [r for r in rets if isinstance(r.value, ast.Name) and r.value.id in f.params and r.value.id not in rebound]
+        ctx.expect(not handed_back, "R15.5", f"{f.name}[new dataset on every path]",
+                   "no path returns the dataset it was given: the spectrum methods fill missing values in place on what comes back",
+                   f.loc(handed_back[0]) if handed_back else f.loc(),
+                   derived="; ".join(f"line {r.lineno}: {ast.unparse(r)}" for r in handed_back) or f"{len(rets)} return(s), none of a parameter")
+    ctx.require_count("R15.5", 3)
     ctx.require_count("R15.1", 150)
     ctx.require_count("R15.2", 5)
     ctx.require_count("R15.3", 9)
